@@ -24,7 +24,8 @@ CLAIMS = {
              "real database after every generated request, an accepted define is checked to have recorded the "
              "declared role, owner and resources, and every generated pair of declarations (including names that "
              "differ only in LIKE wildcards) is applied in both orders on fresh workflows (accept/reject, message "
-             "text, resulting graph).",
+             "text, resulting graph); the pattern and matches that the real glob()/static() send for every spelling of a "
+             "pattern (./, sub/../, from a working directory) are applied next to a step that builds a match, in both orders.",
         note=BASE_NOTE + "Message texts are compared on the implementation only. Over histories: every attached file has a role and an existing creator (unconditional); "
              "static trees never nest and own every attached file beneath them for histories whose recycling defines "
              "bring back a consistent subtree (the F21 mechanism is the guard, with three kernel-checked counterexamples "
@@ -83,7 +84,8 @@ CLAIMS = {
              "the threshold. The oracle recomputes the need of every step from its definition on the real database "
              "at every dispatch and metadata refresh (also after restarts with other targets), checks the "
              "selection of revert_optional_steps, and runs the real tui._async_build to compare the targets handed to "
-             "the director with the files the user named relative to the invocation directory.",
+             "the director with the files the user named relative to the invocation directory; directed scenarios: a producer needed only through an "
+             "amended output (two known findings), demotion of a PLAN need.",
         note=BASE_NOTE + "The closed form holds under the flag discipline of C10 (a theorem for histories with constant "
              "targets between reconciliations, see C10; sampled otherwise); whole-build statements on simulated builds.",
         technique="Lean 4 proof of the per-step need computation + kernel correspondence + from-scratch need oracle",
@@ -105,7 +107,10 @@ CLAIMS = {
              "regenerated from the source by ast; composed with the kernel, every RUNNING row is the step of a job whose task is "
              "in running_tasks. The oracle checks resource sums of RUNNING steps and "
              "holding creators on the real database after every request, the job limit on the real Builder driven by "
-             "event scripts, and job limit, overlap and hold blocks on simulated builds.",
+             "event scripts, and job limit, overlap and hold blocks on simulated builds; above the kernel, every API function that takes "
+             "resources= is called for real with a captured RPC client (the units must arrive in define_step, hold() must pair "
+             "hold/release around what the block declares), and a directed build re-creates a running step with another input "
+             "list (known findings resource-limit-exceeded:running-step-recreated, director-error:running-step-recreated).",
         note=BASE_NOTE + "The job-loop model is tied to builder.py/hash_queue.py by running the real classes with a stub "
              "scheduler/executor on the same event scripts; asyncio (tasks, Event, Queue) is trusted. The overlap of "
              "executions in time and hold blocks of whole builds are in addition decided by the oracle on simulated builds "
@@ -121,7 +126,8 @@ CLAIMS = {
              "interleaving (committed state = transactions left normally, whole, in commit order). Correspondence: "
              "kernel sequences with rejected requests, the real DBSession under generated task schedules, rejected "
              "requests through the real DirectorHandler (database unchanged), and the real RPCServerConnection on a "
-             "virtual clock: a call whose peer vanished is either never started or its transaction completes.",
+             "virtual clock: a call whose peer vanished is either never started or its transaction completes; amend requests whose output directories "
+             "cannot be created or whose inputs are directories (fix c938a59; the hash-job failure after the commit is a known finding).",
         note=BASE_NOTE + "SQLite's atomic commit/rollback is trusted. 'Received in full is applied in full' at the "
              "connection level is decided by the applied-after-disconnect oracle shared with C16, not by a theorem.",
         technique="Lean 4 proof (serialisability by simulation relation, ast-regenerated handler table) + differential "
@@ -188,7 +194,10 @@ CLAIMS = {
              "argument from root/HERE/workdir (lexical resolution), results are normalized, canonical and idempotent, "
              "one location gets one label, affixes are kept exactly when present (partial: not for spellings of the "
              "root), apply_affixes rejects exactly the documented cases. Correspondence against posixpath, path.Path "
-             "and stepup.core.path on generated paths, working directories and HERE/STEPUP_ROOT values.",
+             "and stepup.core.path on generated paths, working directories and HERE/STEPUP_ROOT values; every API function is "
+             "called for real with a captured RPC client and what it hands to the director (and back to the step) is compared with "
+             "the model and decided on a real directory tree; patterns and matches of glob()/static() are recorded without a "
+             "leading ./ (glob_path_trailing_only, since fix f2df9c9); ROOT/HERE of the real Executor._run_command.",
         note=BASE_NOTE + "Lexical resolution on a symlink-free tree is the stated semantics; posixpath/path.Path are "
              "modelled and validated by correspondence. make_path_out, short_path and NUL characters are not modelled.",
         technique="Lean 4 proof on component lists + differential correspondence + realpath oracle on a real tree",
@@ -202,7 +211,9 @@ CLAIMS = {
              "output digest with no extra hypothesis since the F2 fix; both streams are invariant under reordering "
              "of the ingredients; FileHash.refreshed reports a change whenever a stat field moved and content, "
              "size or mode differ. Correspondence: sha256(model stream) equals the digest computed by the real "
-             "StepHash on generated configurations; refreshed on real files.",
+             "StepHash on generated configurations; refreshed on real files, also rewritten right after the bytes were read; the batch "
+             "functions compute_inp_hashes / compute_out_hashes on real files (content, size, mode-only, vanished: every changed "
+             "path is in new_hashes and reported, no unchanged one is); JSON round-trip of FileHash after histories of saves.",
         note=BASE_NOTE + "SHA-256 treated as injective on the strings that occur. JSON/cattrs round trip of stored "
              "hashes is checked by the oracle on generated values only (library code, not modelled). ABA changes "
              "that keep mtime, size, inode and mode are outside the mechanism (stated as a theorem).",
@@ -229,7 +240,8 @@ CLAIMS = {
              "determines each flag; a rejected target gives FAILED alone; cleanup only after a complete build; "
              "pend_blocker holds exactly one row per pending step; the UNION ALL attribution walk terminates for any "
              "blocker table with its primary key (negation witness without it); every pending step is attributed to "
-             "exactly one root or is cyclic, and FILE + RESOURCE + failed + deferred + other + runnable + cyclic = total.",
+             "exactly one root or is cyclic, and FILE + RESOURCE + failed + deferred + other + runnable + cyclic = total. The printed report of the real reporter is parsed "
+             "and compared with the attribution (known finding summary-counts-overlap: the printed rows are exact transitive counts).",
         note=BASE_NOTE + "Base relations of the pending analysis (pend_file_block, dead-end files, unsatisfiable resources) "
              "and whether the cause shown is true of the graph are compared against a from-scratch Python reference on "
              "generated leftover graphs; serve()'s exit status is checked on simulated builds. 'DRAINED without FAILED' "
@@ -249,7 +261,8 @@ CLAIMS = {
              "showing that hypothesis is necessary); the kernel rejects EXTERNAL updates of UNDECLARED/PLANNED/VOLATILE files "
              "(why the watcher must restrict itself to what a restart re-hashes); the glob part extends C17's "
              "update-equals-rescan result. End-to-end equality of outputs, graph and return code is decided by a differential "
-             "oracle: watch rebuild versus restart on paired simulated directors over generated edit scripts.",
+             "oracle: watch rebuild versus restart on paired simulated directors over generated edit scripts, with directed rounds (restore an input together with a new "
+             "match of a sub-plan's pattern; edits while the declaring plan is detached).",
         note=BASE_NOTE + "inotify runtime behaviour and the translation in change_loop are exercised, not modelled. Incomplete "
              "phases compare return code plus the states of attached nodes, drained phases after a settling rebuild. Four "
              "watcher defects found by this oracle were fixed (see known_findings.jsonl); known: "
@@ -272,7 +285,8 @@ CLAIMS = {
              "outputs under its arguments and skips modified ones unless --unsafe (regenerated SELECT_OUTPUTS truth table); "
              "for every history of kernel requests a file row is in a product state only if an earlier accepted define or "
              "amend declared that path as an output, hence every path the cleanup queues was declared as an output "
-             "(cleanup_queues_only_declared_outputs).",
+             "(cleanup_queues_only_declared_outputs). Directed scenarios on whole simulated builds: a volatile leftover adopted by a "
+             "static tree, a static file whose declaration was lost, an optional step added back after a revert.",
         note=BASE_NOTE + "That the director only issues the modelled requests, and what happens to the files on disk, is decided "
              "by the oracle on simulated histories (plan edits, user modifications, stray files, targets, --no-clean, "
              "interleaved `stepup clean` runs; the scratch tree is snapshotted around every removal pass). File system "
@@ -289,7 +303,8 @@ CLAIMS = {
              "by a surviving node); exactly the deleted VOLATILE/BUILT/OUTDATED rows are queued, with their directories; "
              "creators that lost a product have no hash; a negation theorem for detached cycles (F5 witness evaluated on "
              "the model). Correspondence: the cleanup pass of whole simulated builds against the model (surviving nodes, "
-             "states, queue).",
+             "states, queue); directed scenarios: an orphan that is a named input of a surviving step, a cleanup postponed past a "
+             "build with nothing to run.",
         note=BASE_NOTE + "That plan edits leave exactly the dropped steps detached and that unneeded optional steps carry "
              "_implied_need = OPTIONAL at finalize is decided by the oracle on simulated histories (C11 for the cache). "
              "Known findings: detached-cycle-survives (F5), after-kill:orphan-file-forgotten (F6), "
